@@ -56,7 +56,7 @@ def oracleChain (st : St) (rest : List String) : String :=
       else "false returned-chain-is-not-a-valid-chain"
     else if found == "0" then
       if scope != "std" then "true"
-      else if chainExistsB versionsMatched rules a b then "false a-valid-chain-exists-but-none-was-returned"
+      else if chainExistsDec rules a b then "false a-valid-chain-exists-but-none-was-returned"
       else "true"
     else "bad-op"
   | _, _, _, _, _, _ => "bad-op"
